@@ -147,6 +147,10 @@ func (s *Service) handleConnection(ctx context.Context, conn net.Conn, wg *sync.
 
 func (s *Service) teardown() {
 	s.mutex.Lock()
+	if s.listener != nil {
+		// serving has ended: release the endpoint even if Shutdown never saw this listener
+		s.listener.Close()
+	}
 	s.listener = nil
 	s.running = false
 	s.protocol = ""
